@@ -79,6 +79,9 @@ def expectedLiterals : List (String × String) := [
   ("Decoder.parseMetadata#1", "End Point"),
   ("Decoder.parseMetadata#2", "Vehicle"),
   ("Decoder.parseMetadata#3", "Lap "),
+  ("Decoder.parseMetadata#4", "End Point"),
+  ("Decoder.parseMetadata#5", "Vehicle"),
+  ("Decoder.parseMetadata#6", "Lap "),
   ("endpointRe", "([0-9\\.\\-]+), +([0-9\\.\\-]+) +@ +([0-9\\.\\-]+)")
 ]
 
